@@ -16,7 +16,9 @@ ALPHABET = (0x00, 0x01, 0x02, 0x03, 0x04, 0x05, 0x06, 0x09, 0x0C, 0x1F, 0x24, 0x
 BOUNDS = ("(a) every byte string of length <= 2 (quick) / <= 3 (thorough; <= 4 for the BER one-shot decoder) over the reduced alphabet of %d structural octets, "
           "decoders {BER, CER, DER} x {one-shot, streaming} x {no guiding type, INTEGER, SEQUENCE{a,b?,c=T,d?}, SEQUENCE OF OCTET STRING, CHOICE}; "
           "(b) valid encodings of the stream catalogue with one position (every position) overwritten by a symbolic octet (quick: from the alphabet, thorough: unconstrained), optionally a second position "
-          "overwritten by an alphabet octet, or one octet deleted / inserted; step bound: number of read() calls <= 8*|input| + 40" % len(ALPHABET))
+          "overwritten by an alphabet octet, or one octet deleted / inserted; (b') the same streams, one octet overwritten from the alphabet or intact, arriving in two chunks on a "
+          "non-blocking stream (seekable or behind the caching wrapper) with 1-2 empty polls at a symbolic cut; (c) headers of 16 universal primitive types followed by 0..3 (4) "
+          "content octets (unconstrained, or from per-type alphabets where the C-level text codecs enumerate), REAL in every form incl. ISO 6093 text; step bound: number of read() calls <= 8*|input| + 40" % len(ALPHABET))
 OUTSIDE = "octet values outside the alphabet in mode (a); more than two damaged positions; inputs longer than the catalogue's"
 
 DECODERS = (ber_decoder, cer_decoder, der_decoder)
@@ -112,6 +114,37 @@ def template(sid, dec, streaming, guided, pos, x, pos2, a2, how):
     return _decode(dec, streaming, bytes(data), spec)
 
 
+def arrival(sid, dec, seekable, pos, x, c1, polls):
+    """A catalogue stream with one octet overwritten (x < 0: left intact), arriving in two chunks on a non-blocking stream that is
+    polled `polls` times at the cut before the rest arrives: values, underruns or library errors only, bounded number of steps."""
+    st = BY_ID[sid]
+    data = list(st.data)
+    if pos >= len(data) or c1 > len(data):
+        raise Skip()
+    if x >= 0:
+        data[pos] = ALPHABET[x]
+    data = bytes(data)
+    s = vs.ArrivalStream(data, [c1] * polls, eof_with_last=True, seekable=seekable)
+    kwargs = {} if st.spec is None else {"asn1Spec": st.spec}
+    it = iter(DECODERS[dec].StreamingDecoder(s, **kwargs))
+    steps = 0
+    try:
+        for obj in it:
+            steps += 1
+            if steps > len(data) + polls + 6:
+                return "no termination in sight: %d steps for %d octets" % (steps, len(data))
+            if isinstance(obj, error.SubstrateUnderrunError):
+                if not s.advance():
+                    break  # everything delivered and closed: nothing more will come
+                continue
+            msg = _judge(obj, b"", "streaming decode")
+            if msg:
+                return msg
+    except error.PyAsn1Error:
+        pass
+    return None
+
+
 NA = len(ALPHABET) - 1
 OBLIGATIONS = []
 for dec in range(3):
@@ -126,6 +159,14 @@ for dec in range(3):
                                    tiers=("quick", "thorough") if (dec == 0 and not streaming and g in (0, 2)) else ("thorough",)))
 OBLIGATIONS.append(Obl("alphabet4", alphabet, {"dec": C(0), "streaming": C(False), "g": C(0), "n": C(4), "a0": I(0, NA), "a1": I(0, NA), "a2": I(0, NA), "a3": I(0, NA)},
                        shards=[{"a0": C(a), "a1": C(b_)} for a in range(NA + 1) for b_ in range(NA + 1)], thorough_budget=300, tiers=("thorough",)))
+for st in STREAMS:
+    if st.id in ("long_len",):
+        continue
+    _n = len(st.data)
+    OBLIGATIONS.append(Obl("arrival:%s" % st.id, arrival, {"sid": C(st.id), "dec": C(0), "seekable": B, "pos": I(0, _n - 1), "x": I(-1, 2), "c1": I(0, _n), "polls": I(1, 2)},
+                           thorough={"x": I(-1, NA)}, shards=[{"pos": C(p_)} for p_ in range(_n)], budget=150, thorough_budget=600,
+                           tiers=("quick", "thorough") if st.id in ("two_ints_octs",) else ("thorough",),
+                           doc="stream %s with one octet overwritten from the alphabet (or intact), arriving in two chunks with 1-2 empty polls at the cut, seekable and not" % st.id))
 for st in STREAMS:
     n = len(st.items[0][3])
     for dec in range(3):
